@@ -51,6 +51,11 @@ RULE = ("shape = class (Hexagon, Rectangle aspect 1..8, Circle, Cell, "
         "rotation not a multiple of 360 deg (Circle: any); users: rotated "
         "cell with >= 1 user; cluster: >= 3 cells and rotation not a "
         "multiple of 360 deg; pp: >= 1 point. distinct = SHA-1 of the case.")
+RULE += (" Added after the white-box review: "
+         "objects are queried before their setters are applied, "
+         "populated cells are moved, border users (single and list "
+         "call, ratios 0 and 1) are compared with the border point ")
+
 LEVEL_TEXT = ("Generated-input search (Hypothesis, seeded, sharded) over "
               "shapes, positions, radii, rotations, query points, angles, "
               "ratios, RNG seeds and cluster configurations, against "
